@@ -27,8 +27,8 @@ func isSellingConv(t *Term) bool {
 func checkC06(w *World, r *Report) {
 	r.Explanation = "Decides: (REM-WRITERS) the only writers of FixedPriceAuction.RemainingSellingCoin are the constructor (given the offered coin: CREDIT-RECORD, C01), bid placement, which stores old remainder − NewCoin(selling denom, the bid's to-selling conversion), and cancellation (a zero coin); (CONV-AGREE) the quantity compared with the remainder and with the allowance at validation, the quantity subtracted at placement and the quantity allocated at close are all the bid's own to-selling conversion {floor(AMT/PRICE) | AMT} of the stored coin and price with the auction's paying denomination — one callee, so earlier bids are never re-scaled; (FP-ACCEPT) by finite case evaluation a fixed price bid is recorded only for a FixedPrice auction, a coin in the paying or the selling denomination and a price equal to the start price; (FP-NO-REWRITE) no Bid write is reachable from the block hook for a FixedPrice auction and modification is refused for it; plus the shared rules FP-REMAINDER, FP-CAP (C05), PAIR-RESERVE for the fixed price type (C01), OPEN-GUARD (C08), AL-DOM (C10)."
 	r.NotDecided = "the converse 'no valid bid is rejected' beyond the accept sides of the evaluated tables; the arithmetic of the remainder as a number."
-	r.Rule("REM-WRITERS", "writers of the fixed price remainder", 3)
-	r.Rule("CONV-AGREE", "one to-selling conversion at validation, subtraction and allocation", 3)
+	r.Rule("REM-WRITERS", "writers of the fixed price remainder", 2)
+	r.Rule("CONV-AGREE", "one to-selling conversion at validation, subtraction and allocation", 2)
 	r.Rule("FP-ACCEPT", "accept conditions of a fixed price bid", 3)
 	r.Rule("FP-NO-REWRITE", "fixed price bids are written once", 2)
 	tm := NewTerms(w)
